@@ -271,7 +271,6 @@ impl Archive {
         options: &DeleteOptions,
         monitor: Arc<dyn Monitor>,
     ) -> Result<DeleteStats> {
-        let mut stats = DeleteStats::default();
         let start = Instant::now();
 
         // TODO: No need to lock for dry_run.
@@ -281,6 +280,29 @@ impl Archive {
             gc_lock::GarbageCollectionLock::new(self).await?
         };
         debug!("Got gc lock");
+
+        // Release the lock explicitly whether or not the work succeeded: dropping it only
+        // spawns a task to remove the lock file, which may never run if the program exits
+        // straight after reporting the error, and then the archive stays locked.
+        let result = self
+            .delete_bands_locked(&gc_lock, delete_band_ids, options, monitor)
+            .await;
+        let released = gc_lock.release().await;
+        let mut stats = result?;
+        released?;
+        stats.elapsed = start.elapsed();
+        Ok(stats)
+    }
+
+    /// The body of [Archive::delete_bands], run while holding the gc lock.
+    async fn delete_bands_locked(
+        &self,
+        gc_lock: &gc_lock::GarbageCollectionLock,
+        delete_band_ids: &[BandId],
+        options: &DeleteOptions,
+        monitor: Arc<dyn Monitor>,
+    ) -> Result<DeleteStats> {
+        let mut stats = DeleteStats::default();
 
         debug!("List band ids...");
         let mut keep_band_ids = self.list_band_ids().await?;
@@ -336,9 +358,6 @@ impl Archive {
             stats.deletion_errors += error_count;
             stats.deleted_block_count += unref_count - error_count;
         }
-        gc_lock.release().await?;
-
-        stats.elapsed = start.elapsed();
         Ok(stats)
     }
 
